@@ -370,6 +370,24 @@ pub fn run_driver() -> ! {
                 let s = opt_str(&req, "s").unwrap_or_default();
                 json!({"width": crate::ansi::measure_text_width(&s)})
             }
+            "hashorder" => {
+                // iteration order of a fresh std HashMap over fixed keys: lets the harness see
+                // which orders its control of the hash seed actually produces
+                let m: HashMap<String, u8> = [
+                    "color-only",
+                    "diff-highlight",
+                    "diff-so-fancy",
+                    "hyperlinks",
+                    "line-numbers",
+                    "navigate",
+                    "raw",
+                    "side-by-side",
+                ]
+                .iter()
+                .map(|k| (k.to_string(), 0u8))
+                .collect();
+                json!({"order": m.keys().cloned().collect::<Vec<_>>().join(" ")})
+            }
             "quit" => std::process::exit(0),
             _ => json!({"error": format!("unknown op {op}")}),
         };
